@@ -42,13 +42,15 @@ def compile_trs_unpacker_regex(
     """
     # TODO: Check for and handle regex special chars in the various
     #  constants, in case those constants are adjusted by user.
+    # Candidate strings get converted to lowercase before matching, so
+    # match the lowercase version of the error/undefined constants.
     pattern = (
         rf"(?P<twp>{twp_rgx}"
-        rf"|{err_twp}|{undef_twp})"
+        rf"|{err_twp.lower()}|{undef_twp.lower()})"
         rf"(?P<rge>{rge_rgx}"
-        rf"|{err_rge}|{undef_rge})"
+        rf"|{err_rge.lower()}|{undef_rge.lower()})"
         rf"(?P<sec>{sec_rgx}"
-        rf"|{err_sec}|{undef_sec})?"
+        rf"|{err_sec.lower()}|{undef_sec.lower()})?"
     )
     rgx = re.compile(pattern, re.VERBOSE)
     return rgx
@@ -596,7 +598,8 @@ class TRS:
 
         # Enforce lowercase to match pyTRS standard.
         trs = str(trs).lower()
-        mo = TRS._TRS_UNPACKER_REGEX.search(trs)
+        # Require the entire string to be in the standard format.
+        mo = TRS._TRS_UNPACKER_REGEX.fullmatch(trs)
         if not mo:
             return dct
 
